@@ -926,7 +926,14 @@ pub fn guarded<F: FnOnce(&mut Report)>(inst: &str, rep: &mut Report, f: F) {
 		} else {
 			"panic".to_string()
 		};
-		if msg.starts_with("builder refused") || msg.starts_with("builder chain refused") || msg.starts_with("build_block:") {
+		if msg.starts_with("Chain::init") || msg.starts_with("reopen failed") {
+			// a directory produced by a valid history could not be reopened
+			rep.violation(
+				format!("restart:chain-init-failed:{}", inst),
+				format!("a chain directory reached by valid operations in universe {} cannot be opened again: {}", inst, msg),
+				json!({"instance": inst, "panic": msg}),
+			);
+		} else if msg.starts_with("builder refused") || msg.starts_with("builder chain refused") || msg.starts_with("build_block:") {
 			rep.violation(
 				format!("builder:valid-block-refused:{}", inst),
 				format!("while building universe {} from a valid history the chain refused a valid block: {}", inst, msg),
